@@ -21,8 +21,9 @@ PROP = {'assumptions': ['runtime behaviour observed under sanitizers, not proved
 
 TEXT = {'design_ref': 'DESIGN.md section 4, C07',
  'note': 'Partial by nature: time bounds, stack depth, libc regcomp cost and memory safety of the binary are observed, not proved; work is counted in visits '
-         'and deliveries of the model, the product bound on the pattern tests of a WHOLE traversal is not proved (its two factors are).  The model covers the '
-         'command subset of Engines/Srv.lean.',
+         'and deliveries of the model, the pattern tests of a whole traversal are bounded by nodes x entries (`traversal_tests_bounded`, cost-instrumented '
+         'twin); the cost of ONE pattern test (C15) or filter evaluation (C14) is not part of the count.  The model covers the command subset of '
+         'Engines/Srv.lean.',
  'technique': "Lean 4 theorems (every handler of the reflector model is total; a second session's ping is answered after any command history) + hostile-stream "
               'exploration of a real server with a witness session, per-op alarm and ASan/UBSan',
  'text': 'In the model every handler is a total Lean function and `witness_pong_history` shows that after ANY history of commands by any sessions another '
